@@ -744,3 +744,145 @@ Theorem C07_term_late_sched_impossible :
   Some [ XRunit; XRunit; XRunit; XRterm 0; XRterm 1; XRbusy ].
 Proof. exact (conj late_sched_impossible good_order_add_refused). Qed.
 Print Assumptions C07_term_late_sched_impossible.
+
+(* ------------------------------------------------------------------------------------------ *)
+(* C07t -- trace replay for the dynamic terminal manager.  Model: Mgr/ConcTermLog.v ([ystep] = the
+   projection of [xstep false] to what the terminal manager hooks of /repo log: terminal table
+   id |-> (value hash, count), free chain, collector phase, reference count increments owed per
+   thread after a `found` / cache hit / iterator item; the ownership tokens, holders and cache
+   buckets of ConcTerm.v are erased).  [xlabs s a r] = the log of action [a] with result [r],
+   [xtrace] = the log of a schedule; the driver ocaml/c07_main.ml runs the extracted [ystep] on
+   the logged events of the mtbdd / mtbddf cases (inside parallel blocks: C07, outside: C05). *)
+From OxiVerif Require Import Mgr.ConcTermLog Mgr.ConcTermLogProofs.
+
+(* the replay accepts the log of every action of every holder and of the collector, in every
+   state that satisfies the invariant, and ends in the projection of the model's next state ... *)
+Theorem C07_term_log_sim : forall s a s' r, XInv s -> xstep false s a = Some (s', r) ->
+  yrun (yproj s) (xlabs s a r) = Some (yproj s').
+Proof. exact ysim. Qed.
+Print Assumptions C07_term_log_sim.
+
+(* ... hence the log of every schedule ... *)
+Theorem C07_term_log_trace_sim : forall sched s s' log, XInv s -> xtrace s sched = Some (s', log) ->
+  yrun (yproj s) log = Some (yproj s').
+Proof. exact ytrace_sim. Qed.
+Print Assumptions C07_term_log_trace_sim.
+
+(* ... from a new manager of any terminal capacity and any number of cache buckets: the replay,
+   started in [yinit cap], accepts the log of every behaviour of the model *)
+Theorem C07_term_log_reachable_accepted : forall cap nb sched s',
+  xrun false (ctinit cap nb) sched = Some s' ->
+  exists log, xtrace (ctinit cap nb) sched = Some (s', log) /\
+              yrun (yinit cap) log = Some (yproj s').
+Proof. exact yreachable_accepted. Qed.
+Print Assumptions C07_term_log_reachable_accepted.
+
+Theorem C07_term_log_init : forall cap nb, yinit cap = yproj (ctinit cap nb).
+Proof. exact yinit_proj. Qed.
+Print Assumptions C07_term_log_init.
+
+(* whatever the replay accepts keeps ids and values pairwise distinct (hash consing), the free
+   chain duplicate free and disjoint from the table; [yinv_b] decides it *)
+Theorem C07_term_log_inv_def : forall y, YInv y <->
+  NoDup (map fst (y_tt y)) /\ NoDup (map tvalf (y_tt y)) /\ NoDup (y_free y) /\
+  (forall x, In x (y_free y) -> tfind (y_tt y) x = None).
+Proof. exact YInv_def. Qed.
+Print Assumptions C07_term_log_inv_def.
+
+Theorem C07_term_log_inv : forall y l y', YInv y -> ystep y l = Some y' -> YInv y'.
+Proof. exact ystep_inv. Qed.
+Print Assumptions C07_term_log_inv.
+
+Theorem C07_term_log_run_inv : forall log cap y, yrun (yinit cap) log = Some y -> YInv y.
+Proof. exact yrun_init_inv. Qed.
+Print Assumptions C07_term_log_run_inv.
+
+Theorem C07_term_log_inv_checker : forall y, yinv_b y = true <-> YInv y.
+Proof. exact yinv_b_spec. Qed.
+Print Assumptions C07_term_log_inv_checker.
+
+(* the decisions: a removal is accepted only in the sweep phase for a stored terminal without a
+   counted edge (then the terminal is gone and its slot heads the free chain); the scan of the
+   terminal collection only in the sweep phase *)
+Theorem C07_term_log_free : forall y x y', YInv y -> ystep y (YFree x) = Some y' ->
+  y_ph y = PSweep /\ (exists nd, tfind (y_tt y) x = Some nd /\ tn_rc nd = 0%N) /\
+  tfind (y_tt y') x = None /\ y_free y' = x :: y_free y.
+Proof. exact yfree_spec. Qed.
+Print Assumptions C07_term_log_free.
+
+Theorem C07_term_log_scan : forall y y', ystep y YScan = Some y' -> y_ph y = PSweep /\ y' = y.
+Proof. exact yscan_spec. Qed.
+Print Assumptions C07_term_log_scan.
+
+(* `found`: the value is stored under exactly this id; `new`: the value is not stored, the id is the
+   head of the free chain and not in use, the entry starts with one counted edge *)
+Theorem C07_term_log_found : forall y t v x y', YInv y -> ystep y (YFound t v x) = Some y' ->
+  exists nd, tfind (y_tt y) x = Some nd /\ tn_val nd = v.
+Proof. exact yfound_spec. Qed.
+Print Assumptions C07_term_log_found.
+
+Theorem C07_term_log_new : forall y t v x y', YInv y -> ystep y (YNew t v x) = Some y' ->
+  ~ In v (map tvalf (y_tt y)) /\ tfind (y_tt y) x = None /\
+  (exists fr, y_free y = x :: fr /\ y_free y' = fr) /\
+  tfind (y_tt y') x = Some (mkTN v 1).
+Proof. exact ynew_spec. Qed.
+Print Assumptions C07_term_log_new.
+
+(* count changes: only on stored terminals; a decrement, and an increment that no `found` / hit /
+   iterator item announced, need a counted edge *)
+Theorem C07_term_log_retain : forall y t x y', ystep y (YRetain t x) = Some y' ->
+  exists nd, tfind (y_tt y) x = Some nd /\
+             (yowes (y_pend y) t = false -> (0 < tn_rc nd)%N) /\
+             tfind (y_tt y') x = Some (mkTN (tn_val nd) (N.succ (tn_rc nd))).
+Proof. exact yretain_spec. Qed.
+Print Assumptions C07_term_log_retain.
+
+Theorem C07_term_log_release : forall y t x y', ystep y (YRelease t x) = Some y' ->
+  exists nd, tfind (y_tt y) x = Some nd /\ (0 < tn_rc nd)%N /\
+             tfind (y_tt y') x = Some (mkTN (tn_val nd) (N.pred (tn_rc nd))).
+Proof. exact yrelease_spec. Qed.
+Print Assumptions C07_term_log_release.
+
+(* the comparison with the snapshot after a block / an operation: it accepts every state of the
+   model (with the model's own tokens as the counted edges) ... *)
+Theorem C07_term_log_match_proj : forall s, XInv s ->
+  ymatch_b (yproj s) (map fst (ct_tt s)) (ct_own s) = true.
+Proof. exact ymatch_proj. Qed.
+Print Assumptions C07_term_log_match_proj.
+
+(* ... and a replayed state that passes it makes up, with the counted edges the snapshot shows
+   (handles, child edges of stored nodes) as tokens, a state of the full model that satisfies the
+   invariant XInv: exact counts, no dangling counted edge, hash consing; the listed ids are exactly
+   the replayed ones and no increment is owed *)
+Theorem C07_term_log_match_lift : forall y ids refs nb, YInv y -> ymatch_b y ids refs = true ->
+  XInv (ylift y refs nb) /\
+  (forall x, In x ids <-> exists nd, tfind (y_tt y) x = Some nd) /\ y_pend y = [].
+Proof. exact ymatch_lift. Qed.
+Print Assumptions C07_term_log_match_lift.
+
+(* non-vacuity: a log through every label (new, found + increment, clone, drop, iterator item, hit,
+   a complete collection that frees a slot in the sweep, slot reuse, out of memory) is accepted and
+   its end state passes the invariant and the snapshot comparison *)
+Theorem C07_term_log_example :
+  yrun (yinit 2) ylog_ok = Some (mkY [(1%N, mkTN 5 1); (0%N, mkTN 7 2)] [] PIdle []) /\
+  (forall y, yrun (yinit 2) ylog_ok = Some y ->
+     YInv y /\ ymatch_b y [0%N; 1%N] [(0, 0%N); (1, 0%N); (2, 1%N)] = true).
+Proof. exact (conj ylog_ok_accepted ylog_ok_state_inv). Qed.
+Print Assumptions C07_term_log_example.
+
+(* the logs of the defects are refused: scan / removal after post_gc began (seeded C07e), removal of
+   a terminal with a counted edge, `found` of a collected slot, a new id that is in use, a second
+   slot for a stored value, clone / release without a counted edge, an iterator item without its
+   increment (seeded C05) *)
+Theorem C07_term_log_refused :
+  yrun (yinit 2) [YNew 0 7 0; YRelease 0 0; YPreGc; YSweep; YPostGc; YScan] = None /\
+  yrun (yinit 2) [YNew 0 7 0; YRelease 0 0; YPreGc; YSweep; YPostGc; YFree 0] = None /\
+  yrun (yinit 2) [YNew 0 7 0; YPreGc; YSweep; YFree 0] = None /\
+  yrun (yinit 2) [YNew 0 7 0; YRelease 0 0; YPreGc; YSweep; YFree 0; YFound 1 7 0] = None /\
+  yrun (yinit 2) [YNew 0 7 0; YNew 1 9 0] = None /\
+  yrun (yinit 2) [YNew 0 7 0; YNew 1 7 1] = None /\
+  yrun (yinit 2) [YNew 0 7 0; YRelease 0 0; YRetain 1 0] = None /\
+  yrun (yinit 2) [YNew 0 7 0; YRelease 0 0; YRelease 1 0] = None /\
+  yrun (yinit 2) [YNew 0 7 0; YIter 1 0; YRelease 1 0] = None.
+Proof. exact ylog_late_refused. Qed.
+Print Assumptions C07_term_log_refused.
